@@ -857,6 +857,7 @@ class VExc(W):
     self.ident = ident
     self.args = args or []
     self.note = note
+    self.origin = 'callee'
     cn = None
     for n, c in _EXC_CONSTS.items():
       if c.eq(self.cls):
